@@ -106,7 +106,7 @@ class Outcome:
             else:
                 fresh.append((summary, replay))
         for f in known.get("findings", []):
-            if f.get("status") == "open" and f.get("property") == self.prop:
+            if f.get("status") == "open" and self.prop in [f.get("property")] + f.get("also", []):
                 out_lines.append("KNOWN-FINDING: property=%s %s" % (self.prop, f["summary"]))
         seen_paths = set()
         for summary, replay in fresh[:5]:
@@ -143,7 +143,7 @@ class Outcome:
 
 def _matches_known(prop, replay, known):
     for f in known.get("findings", []):
-        if f.get("status") != "open" or f.get("property") != prop:
+        if f.get("status") != "open" or prop not in [f.get("property")] + f.get("also", []):
             continue
         key = f.get("key", {})
         if all(replay.get("key", {}).get(k) == v for k, v in key.items()):
